@@ -445,6 +445,7 @@ package snapshot
 //@   ghost var cpSrc string = ""
 //@   ghost var newSeen bool = false
 //@   ghost var newExists bool = false
+//@   ghost var oldGone bool = false
 //@   ghost update @plan.New: planV = result
 //@   assert @p.AddMkdirAll#1: [shape-1-mkdir-tmp] step == 0 && arg0 == newTmpDir
 //@   ghost update @p.AddMkdirAll#1: mk1 = arg0
@@ -473,7 +474,10 @@ package snapshot
 //@   assert @fsutil.DirExists#1: [resume-looks-for-the-renamed-directory] arg0 == new
 //@   assert @p.Execute#1: [resume-replays-only-before-the-rename] !persisted && newSeen && !newExists
 //@   ghost update @p.Execute#1: resumedOK = (result == nil)
-//@   assert @os.Remove#2: [resume-drops-plan-only-after-success] resumedOK && arg0 == planPath
+//@   ghost update @os.RemoveAll#1: oldGone = (result == nil && arg0 == old)
+//@   assert @os.RemoveAll#1: [resume-completion-removes-only-the-old-directory] newSeen && newExists && arg0 == old
+//@   assert @os.Remove#2: [resume-completion-drops-plan-only-after-old-removed] newSeen && newExists && oldGone && arg0 == planPath
+//@   assert @os.Remove#3: [resume-drops-plan-only-after-success] resumedOK && arg0 == planPath
 //@   assert @p.Execute#2: [plan-persisted-before-execution] persisted && step == 7 && p == planV
 //@   ghost update @p.Execute#2: execOK = (result == nil)
-//@   assert @os.Remove#3: [plan-file-removed-only-after-success] execOK && arg0 == planPath
+//@   assert @os.Remove#4: [plan-file-removed-only-after-success] execOK && arg0 == planPath
